@@ -65,6 +65,7 @@ def gen(rng, n, mode):
         yield {"kind": "collapse", "items": [L.gen_scalar(rng, mode) for _ in range(40)]}
         yield {"kind": "compat", "items": [L.gen_texts(rng, mode) for _ in range(25)]}
         yield {"kind": "varmodel", "items": [L.gen_varmodel(rng, mode) for _ in range(25)]}
+        yield {"kind": "varmodel", "items": [L.gen_varmodelN(rng, mode) for _ in range(40)]}
     for i in range(max(4, n // 2)):
         yield {"kind": "func", "fam": L.gen_func_family(rng, mode)}
     for i in range(n):
